@@ -1,14 +1,22 @@
 """C07 - try / catch / throw follow block structure.
 
-Case = {"trees": [tree, ...]}: program trees executed one after another in one thread by
-harness/ex_exc.c (real try/catch/throw macros).  Trees carry no ids; ids are assigned in
+Case = {"trees": [tree, ...], "build": "plain" (optional), "thread": [h, ...] (optional)}: program trees executed
+one after another by harness/ex_exc.c (real try/catch/throw macros); tree i runs in the executor's main thread
+when h_i is -1 or missing, otherwise in a fresh Cello Thread while the main thread keeps h_i (0..3) catch-all try
+blocks of its own open - the expected trace is the same: the blocks of another thread enclose nothing.  Trees carry no ids; ids are assigned in
 pre-order when the case is encoded, so shrinking never has to keep ids consistent.
 
   ["M"]                         mark
-  ["X", k]                      throw kind k (0 TypeError 1 KeyError 2 ValueError 3 IOError 4 UserExc 5 UserExcEOF 6 User)
+  ["X", k]                      throw kind k (0 TypeError 1 KeyError 2 ValueError 3 IOError 4 UserExc 5 UserExcEOF 6 User
+                                7 IndexOutOfBoundsError 8 ClassError 9 FormatError)
+  ["X", k, how]                 how 1: K[k] is raised by a library function called at this point (kinds in LIBK only),
+                                how 2 / 3: throw with a 300 / 6000 character message; how 0 == ["X", k]
   ["C", t]                      real function call around t
   ["S", [t...]]                 sequence
-  ["T", filt, body, handler]    try/catch; filt = "A" (catch-all) or a list of 1..3 kinds
+  ["T", filt, body, handler]    try/catch; filt = "A" (catch-all) or a list of 1, 2, 3, 5 or 8 distinct kinds
+  ["N", cnt, filt, body, handler]  cnt try blocks nested directly inside one another, all with this filter and this
+                                handler (the handler subtree may therefore run several times); ids id0..id0+cnt-1
+                                from the outermost inwards.  Never expanded: the reference walks the levels in a loop.
   ["L", n, [filt...], [slot...]]  hand-written C function n (1..4) with 2-3 lexically nested try blocks;
                                 filter arities and slot counts are fixed per template (TMPL below); it is
                                 *defined* as the plain tree returned by _expand().
@@ -31,9 +39,15 @@ RUN_TIMEOUT_AFTER_HANGS = 3.0
 _hangs = [0]
 MAX_DEPTH = 6
 MAX_NODES = 40
-RULE = ("case = 1..4 program trees (Seq | Try(filter set of 1..3 kinds or catch-all) | Throw(kind) | Call | Mark | "
-        "lexical template 1..4), first tree height <= 6 and <= 40 nodes (templates counted expanded), further trees "
-        "<= 12 nodes, 7 exception kinds incl. three user objects whose names are prefixes of one another; run in one thread by the real macros, trees whose "
+RULE = ("case = 1..4 program trees (Seq | Try(filter set of 1,2,3,5 or 8 kinds or catch-all) | Throw(kind) | Call | Mark | "
+        "lexical template 1..4 | Nest(cnt directly nested try blocks with one filter and handler, cnt 2..40 or around "
+        "255/256/257, 1000, 2000; open blocks per tree <= 2040 of the library's 2048)), first tree height <= 6 and <= 40 "
+        "nodes (templates counted expanded, a Nest counted as one level), further trees "
+        "<= 12 nodes, 10 exception kinds incl. three user objects whose names are prefixes of one another; a throw is "
+        "the throw macro with a short, 300 or 6000 character message, or an exception raised by a library function "
+        "called at that point (assign/get/cast/stell/len/print_to); run by the real macros in the executor's main thread "
+        "or (a quarter of the cases, per tree) in a fresh Cello Thread while the main thread holds 0..3 try blocks open, in the "
+        "clang-ASan build or (a quarter of the cases) the gcc -O0 build, trees whose "
         "exception escapes run in a forked child; generation is biased to handled-inside-normal-outside, throw/rethrow "
         "from a handler and non-matching inner filters. Trace (marks, handlers with bound object, pre/post of every "
         "construct) is compared exactly with a reference interpreter; depth before == after every construct and 0 "
@@ -47,10 +61,16 @@ ASSUMPTIONS = ["filters are sets: `catch (e in X, X)` (the same object twice) is
                "exception objects are distinct static type objects; filters compare with eq (by type name)",
                "depth is compared only between the two sides of one construct and around a whole tree, never inside "
                "a body or handler (where the pop happens is the implementation's choice)",
-               "single thread; an uncaught exception is observed as exit status and stderr of a forked child"]
+               "one thread at a time: a tree runs either in the executor's main thread or in one fresh Cello Thread that "
+               "is joined before anything else happens (concurrent threads are C13's subject); an uncaught exception "
+               "- in either kind of thread - is observed as exit status and stderr of a forked child"]
 
-KN = ["TypeError", "KeyError", "ValueError", "IOError", "UserExc", "UserExcEOF", "User"]
+KN = ["TypeError", "KeyError", "ValueError", "IOError", "UserExc", "UserExcEOF", "User",
+      "IndexOutOfBoundsError", "ClassError", "FormatError"]
 NK = len(KN)
+LIBK = (0, 1, 2, 3, 7, 8, 9)        # kinds some library function raises on request (harness/ex_exc.c lib_raise)
+ARITIES = (1, 2, 3, 5, 8)           # one real catch site per filter arity
+MAX_OPEN = 2040                     # try blocks open at the same time (EXCEPTION_MAX_DEPTH is 2048)
 # per template: (filter arity per lexical level (0 = catch-all), number of slots)
 TMPL = {1: ([2, 1], 5), 2: ([0, 3], 5), 3: ([1, 0, 2], 8), 4: ([3, 0, 1], 7)}
 
@@ -76,6 +96,8 @@ def _expand(t):
         return ["S", [_expand(x) for x in t[1]]]
     if k == "T":
         return ["T", t[1], _expand(t[2]), _expand(t[3])]
+    if k == "N":
+        return ["N", t[1], t[2], _expand(t[3]), _expand(t[4])]
     if k == "L":
         n, fl, sl = t[1], t[2], [_expand(x) for x in t[3]]
         ar, ns = TMPL[n]
@@ -100,9 +122,14 @@ def _kids(t):
         return [t[1]]
     if k == "S":
         return t[1]
-    if k == "T":
+    if k in ("T", "N"):
         return [t[-2], t[-1]]           # plain ["T", filt, body, handler] or numbered ["T", id, filt, body, handler]
     return []
+
+
+def _cnt(t):
+    """number of try blocks a T / N node opens (plain or numbered form)"""
+    return 1 if t[0] == "T" else t[-4]
 
 
 def size(t):        # on expanded trees
@@ -116,7 +143,17 @@ def height(t):
 
 def try_nesting(t):
     n = max([try_nesting(x) for x in _kids(t)] or [0])
-    return n + 1 if t[0] == "T" else n
+    return n + _cnt(t) if t[0] in ("T", "N") else n
+
+
+def open_blocks(t):
+    """largest number of try blocks open at the same time while t runs (expanded or numbered tree); a handler
+    runs after its own block was popped"""
+    k = t[0]
+    if k in ("T", "N"):
+        c = _cnt(t)
+        return max(c + open_blocks(t[-2]), c - 1 + open_blocks(t[-1]))
+    return max([open_blocks(x) for x in _kids(t)] or [0])
 
 
 def _number(t, ctr):
@@ -132,6 +169,10 @@ def _number(t, ctr):
         return ["C", _number(t[1], ctr)]
     if k == "S":
         return ["S", [_number(x, ctr) for x in t[1]]]
+    if k == "N":
+        i = ctr[0] + 1
+        ctr[0] += t[1]
+        return ["N", i, t[1], t[2], _number(t[3], ctr), _number(t[4], ctr)]
     ctr[0] += 1
     i = ctr[0]
     return ["T", i, t[1], _number(t[2], ctr), _number(t[3], ctr)]
@@ -145,10 +186,20 @@ def _serialise(t, ctr):
         ctr[0] += 1
         return ["M", str(ctr[0])], ["M", ctr[0]]
     if k == "X":
+        if len(t) > 2 and t[2]:
+            return ["Y", str(t[1]), str(t[2])], t
         return ["X", str(t[1])], t
     if k == "C":
         a, b = _serialise(t[1], ctr)
         return ["C"] + a, ["C", b]
+    if k == "N":
+        i = ctr[0] + 1
+        ctr[0] += t[1]
+        f = t[2]
+        toks = ["N", str(i), str(t[1])] + (["0"] if f == "A" else [str(len(f))] + [str(x) for x in f])
+        a, ab = _serialise(t[3], ctr)
+        c, cb = _serialise(t[4], ctr)
+        return toks + a + c, ["N", i, t[1], f, ab, cb]
     if k == "S":
         toks, sub = ["S", str(len(t[1]))], []
         for x in t[1]:
@@ -230,31 +281,50 @@ def ref_run(t, trace, st_, enc=0):
         trace.append("mark %d" % t[1])
         return OK
     if k == "X":
+        how = t[2] if len(t) > 2 else 0
+        if how == 1:
+            st_["ev"].add("raised-by-library")
+        elif how >= 2:
+            st_["ev"].add("long-message")
+        if t[1] >= 7:
+            st_["ev"].add("builtin-kind-7-9")
         return ("raise", t[1])
     if k == "C":
         st_["ev"].add("call")
         return ref_run(t[1], trace, st_, enc)
-    _, i, filt, body, handler = t
-    trace.append("pre %d" % i)
+    if k == "T":
+        _, i, filt, body, handler = t
+        cnt = 1
+    else:
+        _, i, cnt, filt, body, handler = t
+        st_["ev"].add("nest-%s" % ("2..40" if cnt <= 40 else "41..300" if cnt <= 300 else "301..2040"))
+    if filt != "A" and len(filt) > 3:
+        st_["ev"].add("filter-arity-%d" % len(filt))
+    for j in range(cnt):                                # outermost first
+        trace.append("pre %d" % (i + j))
     h0 = st_["handled"]
-    r = ref_run(body, trace, st_, enc + 1)
-    if r == OK:                                     # handler must NOT run
-        if st_["handled"] > h0:
-            st_["ev"].add("inner-handled-outer-normal")
-        trace.append("post %d" % i)
-        return OK
-    kind = r[1]
-    if filt == "A" or kind in filt:
-        trace.append("handler %d %s 1" % (i, KN[kind]))   # bound object is the thrown one
-        r2 = ref_run(handler, trace, st_, enc + 1)
-        if r2 == OK:
-            st_["handled"] += 1
-            trace.append("post %d" % i)
+    r = ref_run(body, trace, st_, enc + cnt)
+    for j in range(cnt - 1, -1, -1):                    # the blocks end innermost first
+        if r == OK:                                     # handler must NOT run
+            if st_["handled"] > h0:
+                st_["ev"].add("inner-handled-outer-normal")
+            trace.append("post %d" % (i + j))
+            continue
+        kind = r[1]
+        if filt == "A" or kind in filt:
+            trace.append("handler %d %s 1" % (i + j, KN[kind]))   # bound object is the thrown one
+            r2 = ref_run(handler, trace, st_, enc + j + 1)
+            if r2 == OK:
+                st_["handled"] += 1
+                trace.append("post %d" % (i + j))
+            else:
+                st_["ev"].add("handler-rethrow" if r2[1] == kind else "handler-throw")
+            r = r2                                       # a throw here propagates outwards
         else:
-            st_["ev"].add("handler-rethrow" if r2[1] == kind else "handler-throw")
-        return r2                                    # a throw here propagates outwards
-    st_["ev"].add("nonmatch-inner" if enc > 0 else "nonmatch-top")
-    return r                                         # non-matching: propagates outwards
+            st_["ev"].add("nonmatch-inner" if enc + j > 0 else "nonmatch-top")
+            if cnt > 40 and j == 0:
+                st_["ev"].add("passes-through-deep-nest")
+    return r                                             # still raising: propagates outwards
 
 
 def reference(tree_numbered):
@@ -319,11 +389,15 @@ def _show(t):
     if k == "M":
         return "M%d" % t[1]
     if k == "X":
-        return "throw(%s)" % KN[t[1]]
+        how = t[2] if len(t) > 2 else 0
+        return ("throw(%s)", "library-raises(%s)", "throw(%s, 300 chars)", "throw(%s, 6000 chars)")[how] % KN[t[1]]
     if k == "C":
         return "call{%s}" % _show(t[1])
     if k == "S":
         return "{" + "; ".join(_show(x) for x in t[1]) + "}"
+    if k == "N":
+        f = "" if t[3] == "A" else " in " + ",".join(KN[x] for x in t[3])
+        return "nest#%d..%d x%d{%s} each catch(e%s) {%s}" % (t[1], t[1] + t[2] - 1, t[2], _show(t[4]), f, _show(t[5]))
     f = "" if t[2] == "A" else " in " + ",".join(KN[x] for x in t[2])
     return "try#%d {%s} catch(e%s) {%s}" % (t[1], _show(t[3]), f, _show(t[4]))
 
@@ -333,17 +407,30 @@ def _validate(case):
         raise HarnessBug("malformed case")
     for t in case["trees"]:
         for n in _walk(t):
-            fs = [n[1]] if n[0] == "T" else n[2] if n[0] == "L" else []
+            fs = [n[1]] if n[0] == "T" else [n[2]] if n[0] == "N" else n[2] if n[0] == "L" else []
             for f in fs:
                 if f != "A" and (len(set(f)) != len(f) or not all(isinstance(x, int) and 0 <= x < NK for x in f)):
                     raise HarnessBug("filter is not a set of kinds: %r" % (f,))
+                if n[0] != "L" and f != "A" and len(f) not in ARITIES:
+                    raise HarnessBug("no catch site of arity %d" % len(f))
+            if n[0] == "N" and not (isinstance(n[1], int) and 1 <= n[1] <= MAX_OPEN):
+                raise HarnessBug("bad nest count %r" % (n[1],))
+            if n[0] == "X" and len(n) > 2 and (n[2] not in (0, 1, 2, 3) or (n[2] == 1 and n[1] not in LIBK)):
+                raise HarnessBug("bad throw node %r" % (n,))
+    thr = case.get("thread") or []
+    if not (isinstance(thr, list) and all(isinstance(h, int) and -1 <= h <= 3 for h in thr)):
+        raise HarnessBug("malformed thread list")
+    for t in case["trees"]:
+        if open_blocks(_expand(t)) > MAX_OPEN:
+            raise HarnessBug("more than %d try blocks open at once (the library's buffer has 2048)" % MAX_OPEN)
 
 
 def encode(case):
     """-> list of (command line, numbered plain tree, reference result, expected trace, events)."""
     _validate(case)
     out = []
-    for t in case["trees"]:
+    thr = case.get("thread") or []
+    for idx, t in enumerate(case["trees"]):
         toks, num = _serialise(t, [0])
         check = _number(_expand(t), [0])
         if check != num:
@@ -351,7 +438,12 @@ def encode(case):
         r, trace, ev = reference(num)
         if any(n[0] == "L" for n in _walk(t)):
             ev.add("lexical-template")
-        cmd = ("run " if r == OK else "fork ") + " ".join(toks)
+        h = thr[idx] if idx < len(thr) else -1
+        if h >= 0:
+            ev.add("in-thread" if r == OK else "escape-in-thread")
+            cmd = ("trun %d " % h if r == OK else "tfork %d " % h) + " ".join(toks)
+        else:
+            cmd = ("run " if r == OK else "fork ") + " ".join(toks)
         out.append((cmd, num, r, trace, ev))
     return out
 
@@ -367,6 +459,9 @@ def _walk(t):
     elif k == "T":
         yield from _walk(t[2])
         yield from _walk(t[3])
+    elif k == "N":
+        yield from _walk(t[3])
+        yield from _walk(t[4])
     elif k == "L":
         for x in t[3]:
             yield from _walk(x)
@@ -387,6 +482,7 @@ def run_case(ctx, case):
             nontrivial = True
     if len(case["trees"]) > 1:
         events.add("sequence-of-trees")
+    events.add("build:" + ("gcc-O0" if case.get("build") == "plain" else "clang-asan"))
     events = sorted(events)
     plain, recs = _split_depths(obs)
     want = [ln for e in enc for ln in e[3]]
@@ -419,7 +515,10 @@ def run_case(ctx, case):
 
 def SAMPLE(case):
     try:
-        return " ;; ".join(_show(_number(_expand(t), [0])) for t in case["trees"])
+        thr = case.get("thread") or []
+        tag = lambda i: " [in a Thread, main holds %d try blocks]" % thr[i] if i < len(thr) and thr[i] >= 0 else ""
+        txt = " ;; ".join(_show(_number(_expand(t), [0])) + tag(i) for i, t in enumerate(case["trees"]))
+        return txt + (" [gcc -O0 build]" if case.get("build") == "plain" else "")
     except Exception:
         return case
 
@@ -436,6 +535,27 @@ class _Gen:
     def __init__(self, draw, budget):
         self.draw = draw
         self.bud = [budget]
+        self.deep = 2000          # try blocks this tree may still spend on Nest nodes (sum over the tree)
+
+    def arity(self):
+        return self.draw(st.sampled_from([1, 1, 1, 2, 2, 3, 3, 5, 8]))
+
+    def others(self, k, n):
+        """n distinct kinds other than k"""
+        f = self.draw(st.lists(st.integers(0, NK - 2), min_size=n, max_size=n, unique=True))
+        return [j if j < k else j + 1 for j in f]
+
+    def nest_count(self, big_ok=True):
+        """0 when the tree has used up its allowance"""
+        if self.deep < 2:
+            return 0
+        if big_ok and self.draw(st.integers(0, 3)) == 0:
+            c = self.draw(st.sampled_from([255, 256, 257, 1000, 2000]))
+        else:
+            c = self.draw(st.integers(2, 40))
+        c = min(c, self.deep)
+        self.deep -= c
+        return c
 
     def avail(self, res):
         return self.bud[0] - res
@@ -448,19 +568,18 @@ class _Gen:
     def f_any(self):
         if self.draw(st.integers(0, 3)) == 0:
             return "A"
-        return self.draw(st.lists(_kind, min_size=1, max_size=3, unique=True))
+        n = self.arity()
+        return self.draw(st.lists(_kind, min_size=n, max_size=n, unique=True))
 
     def f_match(self, k):
         if self.draw(st.integers(0, 2)) == 0:
             return "A"
-        f = self.draw(st.lists(st.integers(0, NK - 2), max_size=2, unique=True))
-        f = [j if j < k else j + 1 for j in f]
+        f = self.others(k, self.arity() - 1)
         p = self.draw(st.integers(0, len(f)))
         return f[:p] + [k] + f[p:]
 
     def f_non(self, k):
-        f = self.draw(st.lists(st.integers(0, NK - 2), min_size=1, max_size=3, unique=True))
-        return [j if j < k else j + 1 for j in f]
+        return self.others(k, self.arity())
 
     def f_fixed(self, k, arity):
         """exactly `arity` distinct kinds, containing k half of the time"""
@@ -473,20 +592,38 @@ class _Gen:
     def leaf(self):
         self.bud[0] -= 1
         c = self.draw(st.integers(0, 2))
-        return ["M"] if c < 2 else ["X", self.draw(_kind)]
+        return ["M"] if c < 2 else self.how(["X", self.draw(_kind)])
 
     def mark(self):
         self.bud[0] -= 1
         return ["M"]
 
-    def throw(self, k):
+    def how(self, x):
+        """the way the exception is raised: the throw macro (short or long message) or a library function"""
+        c = self.draw(st.integers(0, 9))
+        if c <= 5:
+            return x
+        if c <= 7:
+            return x + [1] if x[1] in LIBK else x
+        return x + [2 if c == 8 else 3]
+
+    def throw(self, k, lexical=False):
         self.bud[0] -= 1
-        return ["X", k]
+        return ["X", k] if lexical else self.how(["X", k])
 
     # a subtree that raises k (when nothing inside interferes)
     def thrower(self, k, d, res):
         a = self.avail(res)
-        c = self.draw(st.integers(0, 6)) if d >= 1 else 0
+        c = self.draw(st.integers(0, 8)) if d >= 1 else 0
+        if c >= 7 and a >= 3:
+            # through a deep nest: no level matches (c == 7), or every level's handler rethrows (c == 8)
+            n = self.nest_count()
+            if n:
+                self.bud[0] -= 1
+                b = self.thrower(k, d - 1, res + 1)
+                if c == 7:
+                    return ["N", n, self.f_non(k), b, self.mark()]
+                return ["N", n, self.f_match(k), b, self.throw(k)]
         if c == 1 and a >= 2:
             self.bud[0] -= 1
             return ["C", self.thrower(k, d - 1, res)]
@@ -516,7 +653,10 @@ class _Gen:
             return self.mark()
         self.bud[0] -= 1
         k = self.draw(_kind)
+        n = self.nest_count() if self.draw(st.integers(0, 5)) == 0 else 0
         b = self.thrower(k, d - 1, res + 1)
+        if n:                                          # the innermost of n blocks handles, n - 1 complete normally
+            return ["N", n, self.f_match(k), b, self.quiet(d - 1, res)]
         return ["T", self.f_match(k), b, self.quiet(d - 1, res)]
 
     # a subtree that completes normally
@@ -571,9 +711,9 @@ class _Gen:
             if c <= 2:
                 slots.append(self.mark())
             elif c <= 4:
-                slots.append(self.throw(k))
+                slots.append(self.throw(k, lexical=True))
             elif c == 5:
-                slots.append(self.throw(self.draw(_kind)))
+                slots.append(self.throw(self.draw(_kind)))      # lexical too when it is a plain throw
             elif c == 6:
                 slots.append(self.thrower(k, d - top, r2))
             else:
@@ -584,9 +724,15 @@ class _Gen:
         a = self.avail(res)
         if d <= 0 or a <= 1:
             return self.leaf()
-        c = self.draw(st.integers(0, 13))
+        c = self.draw(st.integers(0, 14))
         if c <= 1:
             return self.leaf()
+        if c == 14 and a >= 3:                           # free-form nest
+            n = self.nest_count()
+            if n:
+                self.bud[0] -= 1
+                b = self.node(d - 1, res + 1)
+                return ["N", n, self.f_any(), b, self.leaf()]
         if c == 2 and a >= 2:
             self.bud[0] -= 1
             return ["C", self.node(d - 1, res)]
@@ -653,7 +799,13 @@ def _cases(draw):
     more = draw(st.integers(0, 3))
     for _ in range(more):
         trees.append(_top(draw, 4, 12))
-    return {"trees": trees}
+    case = {"trees": trees}
+    if draw(st.integers(0, 3)) == 0:
+        # some trees run in a thread of their own, under try blocks that the main thread holds open
+        case["thread"] = [draw(st.sampled_from([-1, 0, 1, 3])) for _ in trees]
+    if draw(st.integers(0, 3)) == 0:
+        case["build"] = "plain"       # the Makefile's gcc -O0 flags: another setjmp / frame layout
+    return case
 
 
 def strategy(tier):
